@@ -1503,9 +1503,13 @@ class Solid:
     #: The RGB colour this brush appears as in 2D views. Randomly assigned when the brush is
     #: created, but then set to the colour of the tied entity or visgroup.
     editor_color: Vec = attrs.field(factory=lambda: Vec(255, 255, 255))
+    # Set once our ID is registered with the map. If construction fails before that,
+    # self.id is just the requested value, which may belong to another live solid.
+    _id_registered: bool = attrs.field(default=False, init=False, repr=False)
 
     def __attrs_post_init__(self) -> None:
         self.id = self.map.solid_id.get_id(self.id)
+        self._id_registered = True
 
     def copy(
         self,
@@ -1634,7 +1638,8 @@ class Solid:
 
     def __del__(self) -> None:
         """Forget this solid's ID when the object is destroyed."""
-        self.map.solid_id.discard(self.id)
+        if getattr(self, '_id_registered', False):
+            self.map.solid_id.discard(self.id)
 
     def remove(self) -> None:
         """Remove this brush from the map."""
